@@ -38,8 +38,16 @@ void runCase(long long i, Prng& r, const Args& a) {
   rec("ljac", relF(Jl, JlRef), tolj);
   // inverses: against the inverse of the model Jacobian, and as products
   ref::BigL JrRefInv = ref::bigInverse(JrRef), JlRefInv = ref::bigInverse(JlRef);
-  rec("rjacinv", relF(Jri, JrRefInv), tolj);
-  rec("ljacinv", relF(Jli, JlRefInv), tolj);
+  // single precision: groups without a closed-form inverse (SGal3, bundles with it) invert J numerically; with |time*velocity| ~ 1e8 the
+  // matrix has condition 1e10 and more, which a float LU cannot resolve to 1e-2 -- a statement about float, not about the code.  Such
+  // samples are judged with an allowance proportional to u*cond and counted (double is always judged at the nominal tolerance)
+  const double condR = (double)(JrRef.norm() * JrRefInv.norm()), condL = (double)(JlRef.norm() * JlRefInv.norm());
+  // the allowance grows with u*cond and only matters beyond cond ~ 2e8 (|time*velocity| or translations >= 1e4..1e5 in float)
+  const double tolInvR = dbl ? tolj : std::max(tolj, 1e-3 * Sc<MonS>::u() * condR), tolInvL = dbl ? tolj : std::max(tolj, 1e-3 * Sc<MonS>::u() * condL);
+  LOG.count(std::string(tolInvR > tolj || tolInvL > tolj ? "inverse-judged-with-conditioning-allowance(float)/" : "inverse-judged-at-nominal-tolerance/") + GN());
+  if (getenv("C06_DEBUG")) fprintf(stderr, "cond %g %g errs %g %g\n", condR, condL, (double)relF(Jri, JrRefInv), (double)relF(Jli, JlRefInv));
+  rec("rjacinv", relF(Jri, JrRefInv), tolInvR);
+  rec("ljacinv", relF(Jli, JlRefInv), tolInvL);
   {
     // product identity, scaled so that blocks of very different magnitude (translations 1e6) do not dominate:
     // || Jrinv * Jr - I ||_F relative to ||Jrinv||_F * ||Jr||_F
